@@ -15,33 +15,38 @@ TECHNIQUE = ("runtime reference-model monitor: dense<->sparse identity against n
              "overlaps and cImageD11.sparse_overlaps / compress_duplicates / coverlaps (called on a buffer with guard zones), "
              "and vs the overlaps stored by properties.pairrow / pairscans")
 LEVEL_TEXT = ("Exploration: shapes up to 3x65534 and 65534x3, uint16/uint32/float32 data, masks from a single pixel to the full "
-              "image given as int8 / bool / uint8 (values up to 255), cuts at min / max-1 / median / 90th percentile / 0 combined at random "
+              "image given as int8 / bool / uint8 (values up to 255), cuts at min / max-1 / median / 90th percentile / 0 / negative (uint16) combined at random "
               "with no / full / 80% / 30% detector masks, pixels in the last row and column; sparse_frame.mask / threshold / "
               "to_dense(default, out=); unsorted frames produced by random permutation and re-sorted, duplicates at any position; "
               "label frames disjoint / identical / partially overlapping with 1..N labels (label ids at the histogram edge, frames ending on "
               "the same pixel), with and without unlabelled (0) pixels; scans with increasing / decreasing / shuffled omega.")
 LEVEL_NOTE = ("Trusts numpy; empty frames are excluded as the property states (the library represents them as None). Frames holding "
-              "unlabelled (label 0) pixels are decided only for the pairs of labels >= 1 (pairs naming 0 are counted, not judged); "
+              "unlabelled (label 0 = background) pixels must give the pairs of labels >= 1 only, on the linear and the matrix route "
+              "(the pinned tree wrote before the matrix and listed pairs naming 0; repaired in /repo); "
               "sparseframe.overlaps documents that it assumes no 0 label and is not given such frames. Labels above the frame's own "
-              "label count (cplabel(countall=True)) are outside the statement and not passed. Sub-checks that currently fail on the "
-              "repaired tree and wait for a decision run only when VERIF_PENDING_C14_* is set (see PENDING below).")
+              "label count (cplabel(countall=True)) are outside the statement and not passed. Masks with negative entries: an exception, the mask>0 or the mask!=0 "
+              "selection are all accepted.")
 
-# sub-checks guarded by hard rule 2 (real behaviour differs from the statement; coordinator decides)
+# sub-checks guarded by hard rule 2 (real behaviour differs from the statement; coordinator decides): run only when the
+# environment variable is set
 PENDING = {
-    "VERIF_PENDING_C14_LABEL0": "coverlaps / overlaps_matrix on frames holding label-0 pixels: writes before mat and miscounts (a-1, n2)",
-    "VERIF_PENDING_C14_OVERLAPS_DISJOINT": "sparseframe.overlaps raises ValueError for two frames without a common pixel",
-    "VERIF_PENDING_C14_NEGMASK": "from_data_mask with negative int8 mask entries returns uninitialised coordinates (return code 4 ignored)",
-    "VERIF_PENDING_C14_NEGCUT": "from_data_cut(uint16 image, cut < 0) selects nothing ((uint16_t)cut wraps)",
-    "VERIF_PENDING_C14_TODENSE_ARRAY": "sparse_frame.to_dense(<array>) (documented) raises TypeError",
+}
+# sub-checks that failed when they were written and were repaired in /repo since (fix: commits 76ed587, c415294, 24a477a,
+# 7f70c21): always on now
+RESOLVED = {
+    "VERIF_PENDING_C14_LABEL0": "coverlaps / overlaps_matrix on frames holding label-0 pixels wrote before mat and miscounted; overlaps_linear listed pairs naming 0 (fix 5b85484)",
+    "VERIF_PENDING_C14_OVERLAPS_DISJOINT": "sparseframe.overlaps raised ValueError for two frames without a common pixel",
+    "VERIF_PENDING_C14_NEGMASK": "from_data_mask with negative int8 mask entries returned uninitialised coordinates (return code 4 ignored)",
+    "VERIF_PENDING_C14_NEGCUT": "from_data_cut(uint16 image, cut < 0) selected nothing ((uint16_t)cut wrapped)",
+    "VERIF_PENDING_C14_TODENSE_ARRAY": "sparse_frame.to_dense(<array>) (documented) raised TypeError",
 }
 
 
 def pending(name):
+    if name in RESOLVED:
+        return True
     assert name in PENDING
     return bool(os.environ.get(name))
-
-RULE = ("a case = (shape, dtype, mask class) for the round trip or (shape, label classes) for overlaps; non-trivial = mask neither "
-        "empty nor full / at least one overlapping label pair; distinct = (shape, dtype, mask class, hash of mask)")
 
 
 def sorted_strict(row, col):
@@ -93,6 +98,27 @@ def roundtrip_case(run, seed, idx, mods):
 
     # second stream for the dimensions added later (keeps the older part of the case unchanged)
     r2 = rng(seed, "C14", "rt2", idx)
+    # third stream: memory layout of the image and of the masks handed to the library (C order, Fortran order, a
+    # transposed view, every other column of a wider array).  The values are the same; the result must be too.
+    r3 = rng(seed, "C14", "rt3", idx)
+
+    def lay(a, kind):
+        if kind == "F":
+            return np.asfortranarray(a)
+        if kind == "T":
+            return np.ascontiguousarray(a.T).T
+        if kind == "strided":
+            big = np.zeros((a.shape[0], 2 * a.shape[1]), a.dtype)
+            big[:, ::2] = a
+            return big[:, ::2]
+        return a
+    lk_data = ["C", "F", "T", "strided"][int(r3.integers(4))] if n <= 200000 else "C"
+    lk_mask = ["C", "F", "T", "strided"][int(r3.integers(4))] if n <= 200000 else "C"
+    data_c = data
+    data = lay(data, lk_data)
+    desc["layout"] = [lk_data, lk_mask]
+    run.count("layout_data_" + lk_data)
+    run.count("layout_mask_" + lk_mask)
     # ---- from_data_mask: the mask in one of the representations callers use
     mrep = ["int8", "bool", "uint8", "int8-big"][int(r2.integers(4))]
     if mrep == "int8":
@@ -103,6 +129,7 @@ def roundtrip_case(run, seed, idx, mods):
         marg = np.where(mask, r2.choice(np.array([1, 2, 127, 128, 255], np.uint8), shape), 0).astype(np.uint8)
     else:
         marg = np.where(mask, r2.integers(1, 128, shape), 0).astype(np.int8)
+    marg = lay(marg, lk_mask)
     desc["maskrep"] = mrep
     run.count("maskrep_" + mrep)
     fr = sparseframe.from_data_mask(marg, data, {"threshold": 0})
@@ -193,6 +220,7 @@ def roundtrip_case(run, seed, idx, mods):
         dk = "ones"                           # the u32 kernel is called directly and always takes a mask
     detmask = (r2.random(shape) < (0.8 if dk == "p80" else 0.3)) if dk in ("p80", "p30") else np.ones(shape, bool)
     detarg = np.where(detmask, r2.choice(np.array([1, 255], np.uint8), shape), 0).astype(np.uint8)
+    detarg = lay(detarg, lk_mask)
     desc.update(cut=ck, detmask=dk)
     if dt in (np.uint16, np.float32):
         cutv = max(int(cut), 0) if dt == np.uint16 else np.float32(cut)
@@ -411,8 +439,9 @@ def overlap_case(run, seed, idx, mods):
             if (int(a), int(b)) in seen:
                 V(route + ":pair-twice", "label pair (%d,%d) listed twice" % (a, b))
             seen.add((int(a), int(b)))
-            if has0 and (int(a) == 0 or int(b) == 0):
-                run.count("pairs_naming_background_reported")
+            if int(a) <= 0 or int(b) <= 0:
+                # label 0 is the background (stored pixel outside every peak): it is not a label that can overlap
+                V(route + ":background-pair", "pair (%d,%d) names the background label" % (a, b))
                 continue
             d[(int(a), int(b))] = int(c)
         return d
@@ -452,7 +481,7 @@ def overlap_case(run, seed, idx, mods):
                 V("coverlaps", "matrix kernel: %d pairs, brute force %d; first difference %r"
                   % (len(gotk), len(want), sorted(set(gotk.items()) ^ set(want.items()))[:2]))
     # matrix object, reused over calls with different (n1, n2): swapped, self, then the pair itself
-    if not has0:
+    if True:
         want21 = {(b, a): c for (a, b), c in want.items()}
         want11 = {(int(a), int(a)): int(c) for a, c in zip(*np.unique(l1[l1 > 0], return_counts=True))}
         with contextlib.redirect_stdout(io.StringIO()):
@@ -510,10 +539,12 @@ def _judge_stored(run, desc, what, ans, da, db, bgframes):
         run.violation(what + ":pair-twice", "a label pair is stored twice", desc)
         return False
     if bgframes:
-        # unlabelled pixels present (threshold above the weakest stored pixel): pairs naming 0 are not judged
+        # unlabelled pixels present (threshold above the weakest stored pixel): no pair may name the background
+        run.count("pairrow_runs_with_background_pixels")
         nbg = sum(1 for a, b, c in rows if a == 0 or b == 0)
-        run.count("pairrow_pairs_naming_background", nbg)
-        rows = [t for t in rows if t[0] > 0 and t[1] > 0]
+        if nbg:
+            run.violation(what + ":background-pair", "%d stored pairs name the background label 0" % nbg, desc)
+            return False
     got = {(a, b): c for a, b, c in rows}
     if got != want or len(rows) != len(want):
         run.violation(what + ":stored-overlaps", "overlaps stored by properties.%s differ from the brute-force count "
@@ -660,6 +691,8 @@ def check(run, replay=None):
     for k in ("none", "ones", "p80", "p30"):
         run.require_counter("cut_detmask_" + k, 10)
     run.require_counter("cut_selective_under_partial_detmask", 20)
+    for lk in ("F", "T", "strided"):
+        run.require_counter("layout_data_" + lk, 20)
     run.require_counter("mask_method_calls", 100)
     run.require_counter("threshold_method_calls", 50)
     run.require_counter("sort_calls", 50)
@@ -673,5 +706,6 @@ def check(run, replay=None):
     run.require_counter("coverlaps_guarded_calls", 100)
     run.require_counter("overlaps_matrix_calls", 300)
     run.require_counter("overlaps_calls", 100)
+    run.require_counter("negmask_accepted", 50)
     run.extra["pending_subchecks"] = {k: ("on" if os.environ.get(k) else "off (fails on the repaired tree, awaiting decision): ") + v
                                       for k, v in PENDING.items()}
